@@ -11,7 +11,10 @@ RULE = ("every generator (Poisson, fine-structure convolution, BRAIN) on a pool 
         "same call (same length, bit-identical intensities, m/z = (m + z*carrier)/|z| to 1e-9 relative); "
         "neutral_mass(mass_charge_ratio(m)) = m on a grid; class = (generator, charge, carrier, length bucket)")
 MODULES = ["Props.C10", "Props.C13Float"]
-CARRIERS = [Fraction(1007276, 10 ** 6), Fraction(22989218, 10 ** 6), Fraction(549, 10 ** 6), Fraction(0)]
+# proton, sodium, electron-sized, zero — and the same magnitudes NEGATIVE (an electron lost or gained: the conversion is
+# (m + z*carrier)/|z| for a carrier of either sign)
+CARRIERS = [Fraction(1007276, 10 ** 6), Fraction(22989218, 10 ** 6), Fraction(549, 10 ** 6), Fraction(0),
+            Fraction(-549, 10 ** 6), Fraction(-1007276, 10 ** 6)]
 FORMULAS = ["C6H12O6", "H2O", "C34H53O15N7", "C2H6S1", "Br2", "Cl2C1", "Fe2O3", "C60H120O60", "K3", "Si2Mg1O4",
             "S8", "Ca1Cl2", "C100H200N30O40S2"]
 
@@ -92,6 +95,8 @@ def run(r: Run):
     for gen, items, carriers in streams:
         mode = {"poisson": "poisson", "conv": "conv", "brain": "brain"}[gen]
         zs = list(range(-8, 9)) if thorough or gen == "poisson" else [-8, -3, -1, 0, 1, 2, 5]
+        if gen != "poisson":
+            zs = zs + [2147483647, -2147483647, -2147483648]   # the extremes of the charge's type
         lines, meta = [], []
         for item in items:
             for c in carriers:
